@@ -66,4 +66,5 @@ struct _ctx {
 };
 
 m_ctx_t *m_ctx(void);
+m_ctx_t *m_thread_ctx(void);
 void ctx_logger(const m_ctx_t *c, const m_mod_t *mod, const char *fmt, ...);
